@@ -1,5 +1,6 @@
 import B6.Model.WorldRead
 import B6.Lemmas.WorldRead
+import B6.Props.C03
 /-!
 # C02 — Compact world answers every query like the in-memory world
 
@@ -19,6 +20,11 @@ Theorems, for every world satisfying the two structural invariants that `build` 
   (`compact_subset_basic`), and the two are equal under the hypothesis `oneLevel`.  The hypothesis is
   needed: `references_oneLevel_counterexample` (a relation of a path through the point) — recorded as the
   finding `compact-references-partial`, whose class predicate is `oneLevel` negated, literally;
+* `find_equiv`, `has_equiv`, `location_equiv` — `FindFeatureByID` / `HasFeatureWithID` / `FindLocationByID`: the
+  in-memory id map and the compact per-type blocks answer alike; `ids_equiv` — the compact `EachFeature` order
+  (blocks, buckets, ids sorted per bucket) is a permutation of the in-memory id map, for any bucket count;
+* `search_equiv` — tag search in ID order: array index and posting-list index built from the same features in
+  any two orders return the same list (C03's `find_features_spec` for both index kinds);
 * `traverse_scan_equiv` — the segment computation of `traverse` (first node in either direction, end points
   always nodes) and of `fillPathSegments` (`previous` / `next` with defaults) agree for any node predicate;
   `count_equiv` — the two intersection tests count the same paths; hence
@@ -666,6 +672,205 @@ theorem build_uniqueKept (src : Source) (h : SourceOK src) : UniqueKept (build s
   rw [this]
   exact List.Nodup.sublist (List.Sublist.map _ List.filter_sublist) h.uniquePaths
 
+/-! ## lookup, existence, location, enumeration -/
+
+/-- every kept feature's id carries the feature's type -/
+structure Typed (w : World) : Prop where
+  points : ∀ p ∈ w.points, p.id.t = .point
+  paths : ∀ q ∈ w.paths, q.id.t = .path
+  areas : ∀ a ∈ w.areas, a.id.t = .area
+  relations : ∀ r ∈ w.relations, r.id.t = .relation
+
+theorem find?_map_rec {α} (l : List α) (c : α → Rec) (key : α → Id) (hk : ∀ a, (c a).id = key a) (x : Id) :
+    (l.map c).find? (fun r => decide (r.id = x)) = (l.find? (fun a => decide (key a = x))).map c := by
+  induction l with
+  | nil => rfl
+  | cons a t ih =>
+    simp only [List.map_cons, List.find?_cons, hk]
+    by_cases h : key a = x <;> simp [h, ih]
+
+theorem find?_none_of_type {α} (l : List α) (key : α → Id) (x : Id) (h : ∀ a ∈ l, (key a).t ≠ x.t) :
+    l.find? (fun a => decide (key a = x)) = none := by
+  rw [List.find?_eq_none]
+  intro a ha
+  simp only [decide_eq_true_eq]
+  intro e
+  exact h a ha (by rw [e])
+
+/-- **`FindFeatureByID`**: looking the id up in the in-memory id map and in the compact blocks of its type give
+the same feature (or both nothing). -/
+theorem find_equiv (w : World) (ht : Typed w) (x : Id) : findB w x = findC w x := by
+  have hp := find?_map_rec w.points Rec.point (·.id) (fun _ => rfl) x
+  have hq := find?_map_rec w.paths Rec.path (·.id) (fun _ => rfl) x
+  have ha := find?_map_rec w.areas Rec.area (·.id) (fun _ => rfl) x
+  have hr := find?_map_rec w.relations Rec.relation (·.id) (fun _ => rfl) x
+  unfold findB findC allFeatures
+  simp only [List.find?_append, hp, hq, ha, hr]
+  cases hx : x.t
+  · have n2 := find?_none_of_type w.paths (·.id) x (fun q hq' => by rw [ht.paths q hq', hx]; simp)
+    have n3 := find?_none_of_type w.areas (·.id) x (fun q hq' => by rw [ht.areas q hq', hx]; simp)
+    have n4 := find?_none_of_type w.relations (·.id) x (fun q hq' => by rw [ht.relations q hq', hx]; simp)
+    simp [n2, n3, n4]
+  · have n1 := find?_none_of_type w.points (·.id) x (fun q hq' => by rw [ht.points q hq', hx]; simp)
+    have n3 := find?_none_of_type w.areas (·.id) x (fun q hq' => by rw [ht.areas q hq', hx]; simp)
+    have n4 := find?_none_of_type w.relations (·.id) x (fun q hq' => by rw [ht.relations q hq', hx]; simp)
+    simp [n1, n3, n4]
+  · have n1 := find?_none_of_type w.points (·.id) x (fun q hq' => by rw [ht.points q hq', hx]; simp)
+    have n2 := find?_none_of_type w.paths (·.id) x (fun q hq' => by rw [ht.paths q hq', hx]; simp)
+    have n4 := find?_none_of_type w.relations (·.id) x (fun q hq' => by rw [ht.relations q hq', hx]; simp)
+    simp [n1, n2, n4]
+  · have n1 := find?_none_of_type w.points (·.id) x (fun q hq' => by rw [ht.points q hq', hx]; simp)
+    have n2 := find?_none_of_type w.paths (·.id) x (fun q hq' => by rw [ht.paths q hq', hx]; simp)
+    have n3 := find?_none_of_type w.areas (·.id) x (fun q hq' => by rw [ht.areas q hq', hx]; simp)
+    simp [n1, n2, n3]
+
+/-- **`HasFeatureWithID`** -/
+theorem has_equiv (w : World) (ht : Typed w) (x : Id) : hasB w x = hasC w x := by
+  unfold hasB hasC; rw [find_equiv w ht x]
+
+theorem find?_congr' {α} (l : List α) (p q : α → Bool) (h : ∀ a ∈ l, p a = q a) : l.find? p = l.find? q := by
+  induction l with
+  | nil => rfl
+  | cons a t ih =>
+    simp only [List.find?_cons, h a (by simp)]
+    rw [ih (fun b hb => h b (by simp [hb]))]
+
+/-- **`FindLocationByID`** of a point id: the in-memory world looks the feature up and asks whether it is a
+point; the compact world scans the point blocks of the id's namespace by value. -/
+theorem location_equiv (w : World) (ht : Typed w) (x : Id) (hx : x.t = .point) : locB w x = locC w x := by
+  unfold locB locC
+  rw [find_equiv w ht x]
+  unfold findC
+  simp only [hx]
+  have : w.points.find? (fun p => decide (p.id.ns = x.ns ∧ p.id.v = x.v)) = w.points.find? (fun p => decide (p.id = x)) := by
+    apply find?_congr'
+    intro p hp
+    have hpt := ht.points p hp
+    have hiff : (p.id.ns = x.ns ∧ p.id.v = x.v) ↔ p.id = x := by
+      constructor
+      · intro h
+        cases hpi : p.id with
+        | mk pt pns pv =>
+          cases hxi : x with
+          | mk xt xns xv =>
+            rw [hpi] at hpt h; rw [hxi] at hx h
+            simp only at hpt hx h
+            rw [hpt, hx, h.1, h.2]
+      · intro h; rw [h]; exact ⟨rfl, rfl⟩
+    simp [hiff]
+  rw [this]
+  cases w.points.find? (fun p => decide (p.id = x)) <;> rfl
+
+theorem insertSorted_perm (x : Id) (l : List Id) : (insertSorted x l).Perm (x :: l) := by
+  induction l with
+  | nil => exact List.Perm.refl _
+  | cons y r ih =>
+    unfold insertSorted
+    split
+    · exact List.Perm.refl _
+    · exact (List.Perm.cons y ih).trans (List.Perm.swap x y r)
+
+theorem sortIds_perm (l : List Id) : (sortIds l).Perm l := by
+  induction l with
+  | nil => exact List.Perm.refl _
+  | cons a t ih =>
+    unfold sortIds at *
+    simp only [List.foldr_cons]
+    exact (insertSorted_perm a _).trans (List.Perm.cons a ih)
+
+theorem flatMap_perm_congr {α β} (l : List α) (f g : α → List β) (h : ∀ a ∈ l, (f a).Perm (g a)) :
+    (l.flatMap f).Perm (l.flatMap g) := by
+  induction l with
+  | nil => exact List.Perm.refl _
+  | cons a t ih =>
+    simp only [List.flatMap_cons]
+    exact List.Perm.append (h a (by simp)) (ih (fun b hb => h b (by simp [hb])))
+
+theorem flatMap_insert_one (a : Id) (g : Nat → List Id) (b0 : Nat) : ∀ n : Nat,
+    ((List.range n).flatMap fun b => if b0 = b then a :: g b else g b).Perm
+      ((if b0 < n then [a] else []) ++ (List.range n).flatMap g) := by
+  intro n
+  induction n with
+  | zero => simp
+  | succ n ih =>
+    simp only [List.range_succ, List.flatMap_append, List.flatMap_cons, List.flatMap_nil, List.append_nil]
+    by_cases h1 : b0 = n
+    · subst h1
+      have hlt : ¬ b0 < b0 := Nat.lt_irrefl _
+      simp only [hlt, ite_false, List.nil_append, ite_true, Nat.lt_succ_self] at ih ⊢
+      exact (List.Perm.append_right _ ih).trans List.perm_middle
+    · by_cases h2 : b0 < n
+      · have h3 : b0 < n + 1 := by omega
+        simp only [h2, ite_true, h1, ite_false, h3] at ih ⊢
+        have := List.Perm.append_right (g n) ih
+        simpa [List.append_assoc] using this
+      · have h3 : ¬ b0 < n + 1 := by omega
+        simp only [h2, ite_false, h1, h3, List.nil_append] at ih ⊢
+        exact List.Perm.append_right _ ih
+
+theorem bucket_perm (nb : Nat) (hnb : 0 < nb) (l : List Id) :
+    ((List.range nb).flatMap fun b => l.filter fun x => x.v % nb = b).Perm l := by
+  induction l with
+  | nil => simp
+  | cons a t ih =>
+    have hf : (fun b => (a :: t).filter fun x => decide (x.v % nb = b)) =
+        (fun b => if a.v % nb = b then a :: (t.filter fun x => decide (x.v % nb = b)) else (t.filter fun x => decide (x.v % nb = b))) := by
+      funext b
+      by_cases h : a.v % nb = b <;> simp [h]
+    rw [hf]
+    have := flatMap_insert_one a (fun b => t.filter fun x => decide (x.v % nb = b)) (a.v % nb) nb
+    have hlt : a.v % nb < nb := Nat.mod_lt _ hnb
+    simp only [hlt, ite_true] at this
+    exact this.trans (List.Perm.cons a ih)
+
+theorem blockOrder_perm (nb : Nat) (hnb : 0 < nb) (l : List Id) : (blockOrder nb l).Perm l := by
+  unfold blockOrder
+  exact (flatMap_perm_congr _ _ _ (fun b _ => sortIds_perm _)).trans (bucket_perm nb hnb l)
+
+/-- **`EachFeature`**: the compact world's enumeration (blocks by type, buckets in order, ids sorted within a
+bucket) visits exactly the features of the in-memory id map, each once — for any number of buckets. -/
+theorem ids_equiv (w : World) (nb : Nat) (hnb : 0 < nb) : (idsC w nb).Perm (idsB w) := by
+  unfold idsC idsB allFeatures
+  simp only [List.map_append, List.map_map]
+  have e1 : (Rec.id ∘ Rec.point) = fun (p : Point) => p.id := rfl
+  have e2 : (Rec.id ∘ Rec.path) = fun (p : Path) => p.id := rfl
+  have e3 : (Rec.id ∘ Rec.area) = fun (p : Area) => p.id := rfl
+  have e4 : (Rec.id ∘ Rec.relation) = fun (p : Relation) => p.id := rfl
+  rw [e1, e2, e3, e4]
+  exact List.Perm.append (List.Perm.append (List.Perm.append (blockOrder_perm nb hnb _) (blockOrder_perm nb hnb _))
+    (blockOrder_perm nb hnb _)) (blockOrder_perm nb hnb _)
+
+theorem build_typed (src : Source) (h : SourceOK src) (hp : ∀ p ∈ srcPoints src, p.id.t = .point) : Typed (build src) := by
+  have hw := build_wellTyped src h
+  exact ⟨fun p hp' => hp p (by simpa [build] using hp'), fun q hq => (hw.paths q hq).1,
+    fun a ha => (hw.areas a ha).1, hw.relations⟩
+
+/-! ## tag search -/
+
+section search
+open B6.Spec.Cursor B6.Spec.SearchQuery B6.Spec.TagQuery B6.Model.FeatureSearch B6.Lemmas.Search B6.Lemmas.TagQuery
+
+/-- the expected search result does not depend on the order the features are indexed in -/
+theorem expected_perm (fs fs' : List B6.Spec.TagQuery.Feature) (hp : fs.Perm fs') (q : B6.Spec.TagQuery.Query) : expected fs q = expected fs' q := by
+  unfold expected
+  apply StrictSorted.ext (sortDedup_sorted _) (sortDedup_sorted _)
+  intro x
+  rw [mem_sortDedup, mem_sortDedup]
+  exact ((hp.filter _).map _).mem_iff
+
+/-- **tag search, in ID order**: the in-memory world (array index, features added in map order) and the compact
+world (posting lists, features added in block order) return the same ids in the same order for every query over
+searchable tags — both return `expected` (C03 `find_features_spec`, which holds for every index kind). -/
+theorem search_equiv (k1 k2 : LeafKind) (fs fs' : List B6.Spec.TagQuery.Feature) (hp : fs.Perm fs') (hfs : ∀ f ∈ fs, FeatureOK f)
+    (hid : (fs.map B6.Spec.TagQuery.Feature.id).Nodup) (q : B6.Spec.TagQuery.Query) (hq : QueryOK q) :
+    findFeatures (buildIndex k1 fs) q = findFeatures (buildIndex k2 fs') q := by
+  have hfs' : ∀ f ∈ fs', FeatureOK f := fun f hf => hfs f (hp.mem_iff.mpr hf)
+  have hid' : (fs'.map B6.Spec.TagQuery.Feature.id).Nodup := (hp.map _).nodup_iff.mp hid
+  rw [B6.Props.C03.find_features_spec k1 fs hfs hid q hq, B6.Props.C03.find_features_spec k2 fs' hfs' hid' q hq,
+    expected_perm fs fs' hp q]
+
+end search
+
 /-! ## non-vacuity, and the witness of the known disagreement -/
 
 def n (v : Nat) : Id := ⟨.point, 0, v⟩
@@ -690,6 +895,10 @@ example : refsB (build demo) (n 1) [.path] = [wy 10, wy 11] ∧ refsC (build dem
 example : areasB (build demo) (n 2) = [⟨.area, 2, 10⟩] ∧ areasC (build demo) (n 2) = [⟨.area, 2, 10⟩] := by decide
 
 example : traverseB (build demo) (n 1) = [⟨wy 10, 3, 0⟩, ⟨wy 11, 1, 0⟩] ∧ traverseC (build demo) (n 1) = [⟨wy 10, 3, 0⟩, ⟨wy 11, 1, 0⟩] := by decide
+
+example : findB (build demo) (wy 10) = findC (build demo) (wy 10) ∧ (findC (build demo) (wy 10)).isSome = true ∧
+    locB (build demo) (n 2) = some "2" ∧ locC (build demo) (n 2) = some "2" ∧
+    idsC (build demo) 4 ≠ idsB (build demo) := by decide
 
 example : oneLevel (build demo) (wy 11) [.relation] = false ∧ oneLevel (build demo) (⟨.relation, 1, 50⟩) [.relation] = true := by decide
 
